@@ -96,7 +96,7 @@ _NOTE = ('the harness calls the public dispenso::pipeline(); stage functors cont
          'a per-execution hook puts glibc\'s cached thread stacks into a canonical order because moodycamel\'s implicit-producer hash depends '
          'on thread_local addresses (see harness/c27_pipeline.notes.md)')
 
-reg('C27', level='model_checking', runs=c27_runs, quick_budget_s=300, thorough_budget_s=1200,
+reg('C27', level='model_checking', runs=c27_runs, quick_budget_s=300, thorough_budget_s=1500,
     technique='stateless model checking of the real pipeline()/LimitGatedScheduler/ConcurrentTaskSet/ThreadPool code with tagged, '
               'heap-owning items: all interleavings up to a deviation bound, per-(item,stage) exactly-once and provenance oracle',
     level_text='pipelines of 1-5 stages over stage limits {plain function, stage(f,2), stage(f,kStageNoLimit)} (all 9 limit pairs for 2 stages; 6 '
@@ -110,7 +110,7 @@ reg('C27', level='model_checking', runs=c27_runs, quick_budget_s=300, thorough_b
     level_note=_NOTE, design_ref='DESIGN.md section 4, C27', assumptions=MC_ASSUME, rule=_RULE,
     guards=[need_cover('filtered', 'stage_ran_inline_nested'), need_outcomes(20)])
 
-reg('C28', level='model_checking', runs=c28_runs, quick_budget_s=300, thorough_budget_s=1200,
+reg('C28', level='model_checking', runs=c28_runs, quick_budget_s=300, thorough_budget_s=1500,
     technique='stateless model checking of the real pipeline() code, every stage functor bracketing a scheduling point with a per-stage '
               'in-flight counter',
     level_text='the C27 matrix (1-5 stages, limits {plain function = 1, 2, unlimited}, pools 0-2, 2-3 items, bounds as in C27; the quick tier '
@@ -191,7 +191,7 @@ def c29_runs(tier):
     return runs + heavy + san
 
 
-reg('C29', level='model_checking', runs=c29_runs, quick_budget_s=300, thorough_budget_s=1200,
+reg('C29', level='model_checking', runs=c29_runs, quick_budget_s=300, thorough_budget_s=1500,
     technique='stateless model checking of the real pipeline() code with throwing stage functors and heap-owning, lifetime-tracked items; '
               'the engine\'s live-object registry (all modes) and LeakSanitizer (asan mode) are evaluated at the end of every execution',
     level_text='throwing stage in each position (generator, transform, sink) x throw at the first / middle / last of 3 items x stage limits '
